@@ -84,8 +84,10 @@ func termOracle(sp *Spec, x *X, writes []OutWrite, w, h int) (string, string, *t
 				live = append(live, cleanLine(r.Raw))
 			}
 		}
-		if h > 0 && nrows+len(f.Text) > h {
-			return "frame-taller-than-terminal", fmt.Sprintf("frame %d has %d lines, the terminal %d rows", fi, nrows+len(f.Text), h), rep
+		// (lines of text written through the container are meant to scroll away and are not part of the frame's height;
+		// that they alone reach the scrollback is what the history comparison below checks)
+		if h > 0 && nrows > h {
+			return "frame-taller-than-terminal", fmt.Sprintf("frame %d has %d bar rows, the terminal %d rows", fi, nrows, h), rep
 		}
 		if t.Overflowed {
 			return "row-wider-than-terminal", fmt.Sprintf("frame %d: a line wrapped on a %d column terminal: %q", fi, w, wr.Data), rep
@@ -209,9 +211,9 @@ func c04Programs(tier string) []*Spec {
 		w, h int
 	}
 	// recorder (80 x endless) and ptys; rows of the programs below: 2..4
-	outs := []outp{{false, 0, 0}, {true, 40, 8}, {true, 20, 5}}
+	outs := []outp{{false, 0, 0}, {true, 40, 8}, {true, 20, 5}, {true, 40, 3}}
 	if tier == "thorough" {
-		outs = append(outs, outp{true, 40, 4}, outp{true, 40, 3}, outp{true, 40, 2}, outp{true, 20, 6})
+		outs = append(outs, outp{true, 40, 4}, outp{true, 40, 2}, outp{true, 20, 6})
 	}
 	for _, o := range outs {
 		for _, rf := range []string{"manual", "auto"} {
@@ -453,7 +455,7 @@ func c18Programs(tier string) []*Spec {
 func init() {
 	register(&Family{
 		Property: "C04",
-		Rule: "frame sequences from programs over {plain, extender rows below/above, abort+drop, remove-on-complete, Progress.Write of 1..3 lines, a bar added late, pop mode, pop mode + text, render delay} in manual and auto refresh, written to (i) a recorder interpreted on a virtual terminal of the container width and endless height and (ii) real pseudo terminals (cwriter's terminal path: size from the fd) of 40x8 and 20x5 (thorough also 40x4, 40x3, 40x2, 20x6), plus three bars on terminals of height 2, 3, 4 (below, at, above the row count); every schedule within the deviation bound. " +
+		Rule: "frame sequences from programs over {plain, extender rows below/above, abort+drop, remove-on-complete, Progress.Write of 1..3 lines, a bar added late, pop mode, pop mode + text, render delay} in manual and auto refresh, written to (i) a recorder interpreted on a virtual terminal of the container width and endless height and (ii) real pseudo terminals (cwriter's terminal path: size from the fd) of 40x8, 20x5 and 40x3 (thorough also 40x4, 40x2, 20x6), plus three bars on terminals of height 2, 3, 4 (below, at, above the row count); every schedule within the deviation bound. " +
 			"Oracle: the output stream is interpreted by an ANSI terminal emulator (CUU, ED, CR/LF, deferred wrap, scrollback); after every flush the terminal's whole history must equal the lines meant to persist (text written, popped bars, once, in order) followed by the rows of the current frame; the scrollback may hold persisted lines only; no line wraps; no frame is taller than the terminal; nothing is written before the render delay ends; a non-terminal without refresh receives no rows or cursor controls.",
 		Items: func(tier string) []Item {
 			var items []Item
